@@ -3,6 +3,7 @@ package vrt
 import (
 	"fmt"
 	"reflect"
+	"runtime/debug"
 	"sort"
 	"time"
 )
@@ -133,12 +134,18 @@ func Park(label string) {
 }
 
 // block waits until pred holds. pred must only read shim state.
+// Debug makes blocked threads record where they block (used by replays).
+var Debug bool
+
 func (s *Sched) block(label string, pred func() bool) {
 	me := s.cur
 	for !pred() {
 		me.state = tBlocked
 		me.pred = pred
 		me.label = label
+		if Debug {
+			me.label = label + " @ " + trimStack(string(debug.Stack()))
+		}
 		s.yield(false)
 	}
 	me.label = ""
